@@ -155,17 +155,18 @@ def c03_repair(ctx):
                     edges.append((sb, tb))
         if not edges or a.bb in b.reachable([0], removed_edges=edges):
             ctx.fail(o, a, "a computing slot is created although `last_verified == caller.timestamp()` was not excluded: an up-to-date query would be repaired/executed again")
-    o = ctx.ob("C03.d", "should_recompute_query/recompute-only-when-needed", "K4", "repair hands the guard on to re-execution only for backward-projection propagation or a Recompute decision")
+    o = ctx.ob("C03.d", "should_recompute_query/recompute-only-when-needed", "K4",
+               "repair hands the guard on to re-execution only after a Recompute decision - also for a backward-projection propagation (which is verified, not forced; D19)")
     b = ctx.touch(prog.coroutine_of("Snapshot::should_recompute_query"))
     somes = [a for a in b.aggregates(r"core::option::Option$", "Some") if a.node["lhs"][0] == 0]
-    o.sites = len(somes)
-    if len(somes) < 2:
-        ctx.fail(o, Site(b, 0, 0), "expected two `return Some((lock_guard, self))` exits, found %d" % len(somes))
+    dec = b.calls_to(r"recompute_decision_based_on_forward_edges$")
+    o.sites = len(somes) + len(dec)
+    if len(somes) < 1 or len(dec) != 1:
+        ctx.fail(o, Site(b, 0, 0), "anchors missing: `return Some((lock_guard, self))` / recompute_decision_based_on_forward_edges in should_recompute_query (%d / %d)" % (len(somes), len(dec)))
     for a in somes:
-        ok1 = df.dominated_by_variant(b, a.bb, "caller::CallerKind", {3})
-        ok2 = df.dominated_by_variant(b, a.bb, "repair::RepairDecision", {0})
-        if not (ok1 or ok2):
-            ctx.fail(o, a, "should_recompute_query returns Some (re-execute) on a path that is neither BackwardProjectionPropagation nor RepairDecision::Recompute")
+        if not df.dominated_by_variant(b, a.bb, "repair::RepairDecision", {0}):
+            ctx.fail(o, a, "should_recompute_query returns Some (re-execute) on a path that did not go through RepairDecision::Recompute: a query whose inputs did not change is re-executed "
+                     "(for a backward-projection propagation: a left-over marker above an up-to-date projection runs its executor)")
     o = ctx.ob("C03.d", "check_callee/skip-clean-edges", "K4", "a callee behind a clean edge is neither repaired nor compared unless the repair is pedantic or the node is a projection")
     b = ctx.touch(prog.coroutine_of("Snapshot::check_callee"))
     nn = b.aggregates(r"repair::CalleeCheckDecision$", "NoNeed")
@@ -235,44 +236,29 @@ def c03_repair(ctx):
 
 
 def c03_marker(ctx):
-    """The persisted backward-projection marker is honoured only in the epoch it was recorded in.
-    NOTE (DESIGN 6b, K2): this clause is derived from TODAY's marker protocol, in which markers are also left behind when a
-    projection was brought up to date by another path - honouring them later repeats work (the seeded change C03).  The same
-    equality loses pending work when a propagation was cancelled or never started (known finding K2, rule C01.u).  A repair
-    of K2 has to change the protocol (clear / narrow the marker where a projection becomes up to date); this clause must
-    then be re-derived from the new protocol rather than kept as it is."""
+    """Protocol since D19 (DESIGN 6, K2 -> D19): the persisted backward-projection marker is honoured whatever epoch it was
+    written in; BOTH sites that decide on the backward projection test its PRESENCE only and therefore agree (a site that
+    compares epochs while the other does not live-locks or forgets work), and what keeps a left-over marker from repeating
+    work is that a backward-projection propagation is verified, not forced (C03.d).  The earlier form of this clause
+    demanded epoch equality at both sites - consistent with the protocol of the time, whose loss of pending work was the
+    known finding K2."""
     prog = ctx.prog
-    o = ctx.ob("C03.f", "pending-backward-projection/epoch-equality-at-both-sites", "K4+K8",
-               "backward projection is entered only when the stored marker equals the caller's epoch (fast path) and the in-lock double check is its exact negation")
-    want = (("Snapshot::fast_path", r"Option::<[^>]*>::is_some_and$", "eq"),
-            ("Snapshot::get_backward_projection_lock_guard", r"Option::<[^>]*>::is_none_or$", "ne"))
+    o = ctx.ob("C03.f", "pending-backward-projection/both-sites-test-presence-and-agree", "K4+K8",
+               "fast_path enters the backward projection iff the marker is present, and the in-lock double check of get_backward_projection_lock_guard gives up iff it is absent; neither compares epochs")
+    want = (("Snapshot::fast_path", r"Option::<[^>]*>::is_some$", r"Option::<[^>]*>::is_some_and$"),
+            ("Snapshot::get_backward_projection_lock_guard", r"Option::<[^>]*>::is_none$", r"Option::<[^>]*>::is_none_or$"))
     n = 0
-    for fn, combinator, rel in want:
+    for fn, plain, with_pred in want:
         b = ctx.touch(prog.coroutine_of(fn))
-        cs = [s for s in b.calls_to(combinator) if any(x.kind == "call" and (x.callee() or "").endswith("::pending_backward_projection") for x in df.origins_of_operand(b, s.node["args"][0]))]
-        n += len(cs)
-        if len(cs) != 1:
-            ctx.fail(o, Site(b, 0, 0), "anchor missing: test of pending_backward_projection() in %s" % fn)
-            continue
-        # the predicate closure
-        clo = [x for x in df.origins_of_operand(b, cs[0].node["args"][1]) if x.kind == "agg" and x.site.node["rv"].get("ak") == "closure"]
-        if len(clo) != 1 or clo[0].site.node["rv"]["def"] not in prog.bodies:
-            ctx.fail(o, cs[0], "anchor missing: predicate closure of %s" % fn)
-            continue
-        c = ctx.touch(prog.bodies[clo[0].site.node["rv"]["def"]])
-        cmps = [s for s in c.calls() if re.search(r"core::cmp::(PartialEq|PartialOrd)::(eq|ne|lt|le|gt|ge)$", s.node["fn"]["path"])]
-        n += len(cmps)
-        if len(cmps) != 1 or not cmps[0].node["fn"]["path"].endswith("PartialEq::" + rel):
-            ctx.fail(o, cmps[0] if cmps else Site(c, 0, 0), "%s compares the stored marker with the caller's epoch using `%s` instead of `%s`: a marker left over from an earlier session would "
-                     "trigger backward projection (and re-execute projection queries) in a session that changed nothing" % (
-                         fn, cmps[0].node["fn"]["path"].rsplit("::", 1)[-1] if cmps else "?", rel))
-            continue
-        da, db = df.Desc(c, cmps[0].node["args"][0], prog), df.Desc(c, cmps[0].node["args"][1], prog)
-        if not ((da.has("CallerInformation::timestamp") or db.has("CallerInformation::timestamp"))):
-            ctx.fail(o, cmps[0], "%s does not compare the marker with caller.timestamp()" % fn)
-        # the closure returns the comparison itself (not its negation)
-        if c.assigns(lambda st: st["rv"]["k"] == "un" and st["rv"]["op"] == "Not") or c.calls_to(r"ops::bit::Not::not$"):
-            ctx.fail(o, cmps[0], "the marker test of %s is negated" % fn)
+        from_marker = lambda s_: any(x.kind == "call" and (x.callee() or "").endswith("::pending_backward_projection") for x in df.origins_of_operand(b, s_.node["args"][0]))
+        ok = [s_ for s_ in b.calls_to(plain) if from_marker(s_)]
+        pred = [s_ for s_ in b.calls_to(with_pred) if from_marker(s_)]
+        n += len(ok) + len(pred)
+        if pred:
+            ctx.fail(o, pred[0], "%s decides on the pending-backward-projection marker with a predicate on its content (an epoch comparison): the two sites must both test presence only - "
+                     "with `==` pending work is forgotten when the epoch moves on (K2), with an ordering one site and not the other live-locks" % fn)
+        elif len(ok) != 1:
+            ctx.fail(o, Site(b, 0, 0), "anchor missing: the presence test of pending_backward_projection() in %s (found %d)" % (fn, len(ok)))
     o.sites = n
     # the marker is written with the current epoch, and removed when the projection is done
     o2 = ctx.ob("C03.f", "pending-backward-projection/written-with-current-epoch", "K5", "the marker stores the epoch of the recomputation that requested it")
@@ -305,8 +291,8 @@ def c03_epoch_cmp(ctx):
                 if any(x in ("last_verified", "timestamp", "pending_backward_projection") for x in ap):
                     ctx.fail(o, st, "%s orders two epochs with `%s`" % (b.name, st.node["rv"]["op"]))
     o.sites = n
-    if n < 4:
-        ctx.fail(o, "(program)", "expected >= 4 equality tests on Timestamp in the engine (fast path, double check, marker x2), found %d" % n)
+    if n < 2:
+        ctx.fail(o, "(program)", "expected >= 2 equality tests on Timestamp in the engine (fast path, in-lock double check of computing_lock_guard), found %d" % n)
 
 
 def c03j(ctx):
